@@ -312,6 +312,51 @@ def run(ctx):
             run.instance(R3, {"fn": "scan", "obligation": "the outputs deleted are those with status == Unconfirmed"}, held=unc)
             if not unc:
                 run.finding(Finding(R3, sc.id, "selection of unconfirmed outputs (status == Unconfirmed) not found", site=sc.loc()))
+    R5 = "C16.R5"
+    run.rule(R5, "every account re-created by a scan gets its own label (the label counter advances per account)", floor=2)
+    if sc:
+        sap = cfg.find_calls(sc, c.LW + "internal::keys::set_acct_path")
+        if len(sap) != 1:
+            run.error("C16.R5: expected one keys::set_acct_path call in scan, found %d" % len(sap))
+        else:
+            b, t = sap[0]
+            fl = vf.get_flow(sc)
+            # locals the label argument depends on
+            p = vf.op_place(t["a"][2])
+            dep, stack = set(), [p[0]] if p else []
+            while stack:
+                l = stack.pop()
+                if l in dep:
+                    continue
+                dep.add(l)
+                stack.extend(fl.deps[l])
+            counters = []
+            for l in sorted(dep):
+                if not sc.locals[l].get("u") or sc.locals[l]["ty"] not in ("usize", "u32", "u64", "u16", "u8"):
+                    continue
+                # incremented (`_t = AddWithOverflow(copy L, const k); L = move _t.0`) at a point reached after the
+                # set_acct_path call and from which the call is reached again
+                incs = []
+                for bb_i, bb in enumerate(sc.bbs):
+                    for st in bb["s"]:
+                        if st["k"] == "a" and st["r"]["k"] == "bin" and st["r"]["op"].startswith("Add"):
+                            lp = vf.op_place(st["r"]["l"])
+                            if lp and vf.strip_clones(sc, st["r"]["l"]) == l and vf.const_of_operand(sc, st["r"]["r"]) not in (None, "0"):
+                                incs.append(bb_i)
+                after = cfg.reach(sc, starts=[t["t"]])
+                for ib in incs:
+                    if ib in after and b in cfg.reach(sc, starts=[ib]):
+                        counters.append((l, ib))
+            held = bool(counters)
+            run.instance(R5, {"fn": "scan", "obligation": "the label passed to set_acct_path depends on a counter that is incremented inside the same loop", "counters": ["_%d" % l for l, _ in counters]}, held=held)
+            if not held:
+                run.finding(Finding(R5, sc.id, "labels of re-created accounts do not advance: several restored accounts would share one label (and overwrite each other's path)", site=c.site_of(sc, b)))
+            # and the path stored is the found parent path being iterated (not a constant / other variable)
+            po = vf.origins(sc, t["a"][3])
+            h = vf.has_call(po, "std::collections::hash::map::Iter") or any(x[0] == "call" and "hash::map" in x[1] for x in po) or vf.has_call(po, "alloc::vec::Vec::<T>::new")
+            run.instance(R5, {"fn": "scan", "obligation": "the path given to set_acct_path is the restored parent path"}, held=h)
+            if not h:
+                run.finding(Finding(R5, sc.id, "set_acct_path is not given the restored parent path", site=c.site_of(sc, b)))
     run.not_decided += [
         "completeness over chain histories ('exactly the outputs of the seed') - depends on range-proof rewinding and the node's paging",
         "equality of the restored totals with the original wallet",
